@@ -186,7 +186,7 @@ pub fn run(cfg: &RunCfg, soak: bool) -> Report {
 	rep.rule = if soak {
 		"panic-free soak: random histories (10..40 acquisitions) over arenas with Poisonable leaves, every API flavour and collection kind; no wrapper may ever report poisoned (is_poisoned, Ok/Err of every position); distinct = distinct history".into()
 	} else {
-		"random histories (2..10 steps) over arenas with Poisonable<Mutex>/Poisonable<RwLock> leaves: holds via own guard / own scoped call / guard or scoped call of boxed, ref, retrying and nested collections containing them x exclusive/shared x panic or not, clear_poison between holds and from inside a live hold, subsequent acquisitions through every route; PoisonModel with must (panic during an exclusive hold) and may (any panic during any hold) bits: must => poisoned, not may => not poisoned, checked on is_poisoned() after every step and on the Ok/Err of every Poisonable position of every acquisition; non-trivial = history with >= 1 panic during a hold".into()
+		"random histories (2..10 steps) over arenas with Poisonable<Mutex>/Poisonable<RwLock> leaves: holds via own guard / own scoped call / guard or scoped call of boxed, ref, retrying and nested collections containing them x exclusive/shared x panic or not, clear_poison between holds and from inside a live hold, subsequent acquisitions through every route; PoisonModel with must (panic during an exclusive hold) and may (any panic during any hold) bits: must => poisoned, not may => not poisoned, checked on is_poisoned() after every step and on the Ok/Err of every Poisonable position of every acquisition; guard+unlock holds whose section panics are ended through the explicit unlock function from a destructor during the unwind; one acquisition in eight is made entirely inside an unrelated unwind (its wrappers may, but need not, report poisoned afterwards); non-trivial = history with >= 1 panic during a hold".into()
 	};
 	rep
 }
